@@ -101,6 +101,18 @@ fn run_case(c: &Case, rng: &mut Rng, rep: &mut Report, replay: &dyn Fn() -> Stri
             rep.count("c13.pre-same-ids");
         }
     }
+    if c.primed && c.buf_len % 4 == 3 {
+        // the same encapsulator first sends a broadcast packet through encap_ext, and the receiver gets it: the label
+        // of the packet under test has to be written in full again
+        let mut b = vec![0u8; 64];
+        let ex = vec![Extension::new(0x0233, &[1, 2]).unwrap()];
+        if let Ok(Ok(EncapStatus::CompletedPkt(n))) = guard(|| enc.encap_ext(b"", 8, EncapMetadata::new(0x0800, Label::Broadcast), &mut b, ex)) {
+            if let Ok(Ok((DecapStatus::CompletedPkt(bf, _), _))) = dec_guard(&mut dec, &b[..(n as usize).min(64)]) {
+                let _ = dec.provision_storage(bf);
+            }
+            rep.count("c13.pre-broadcast-through-encap_ext");
+        }
+    }
     let mut buf = sentinel(c.buf_len, 0x3C);
     rep.eval();
     let r = guard(|| enc.encap_ext(c.pdu, 9, meta, &mut buf, exts.clone()));
@@ -344,7 +356,7 @@ impl Property for Prop {
         "C13"
     }
     fn rule(&self) -> &'static str {
-        "ctor: every extension id 0..=0xFFFF x data length 0..=10 (Ok <=> id < 0x0600 and (id < 0x0100 or length == H-LEN table), never a panic); small: seeded chains of 1..4 extensions, one in eight of 5..14 (every optional H-LEN class, known non-final mandatory extensions with 0..8 data bytes, optionally a final mandatory extension last with type == its id) x all label kinds (incl. re-use substituted) x PDUs of 0..=64 bytes x EVERY buffer size from 5 to the full packet length + 2 (fragmentation at every offset inside and after the extension area) x storage == PDU length or larger; large: lattice-sized PDUs and buffers; ptypes: every protocol type 0..=0x06FF through encap_ext with a one-element chain (reserved range refused, everything accepted decodable); illegal: type < 0x0100 with a non-matching / non-mandatory last extension, types 0x0100..0x05FF, final extension not matching the type (an error is expected; Ok is judged by decodability). Each Ok result is decoded by the independent parser and by the real receiver with an all-knowing manager, then by a receiver lacking one mandatory id (the packet is dropped repeatedly, the following packet is still delivered, and the whole PDU stays dropped even when an older compatible train is open on the same fragment id). One legal case in four is preceded, on the same encapsulator, by an encap_ext call with the same label that is refused (reserved protocol type / non-matching final mandatory extension): the refused call must not change how the next packet is encoded; one case in four is preceded by an accepted call with the same extension ids but mandatory data of other lengths. Non-trivial = a case that reached the receiver round trip; fingerprint = (chain shape, label, PDU length, buffer, storage)."
+        "ctor: every extension id 0..=0xFFFF x data length 0..=10 (Ok <=> id < 0x0600 and (id < 0x0100 or length == H-LEN table), never a panic); small: seeded chains of 1..4 extensions, one in eight of 5..14 (every optional H-LEN class, known non-final mandatory extensions with 0..8 data bytes, optionally a final mandatory extension last with type == its id) x all label kinds (incl. re-use substituted) x PDUs of 0..=64 bytes x EVERY buffer size from 5 to the full packet length + 2 (fragmentation at every offset inside and after the extension area) x storage == PDU length or larger; large: lattice-sized PDUs and buffers; ptypes: every protocol type 0..=0x06FF through encap_ext with a one-element chain (reserved range refused, everything accepted decodable); illegal: type < 0x0100 with a non-matching / non-mandatory last extension, types 0x0100..0x05FF, final extension not matching the type (an error is expected; Ok is judged by decodability). Each Ok result is decoded by the independent parser and by the real receiver with an all-knowing manager, then by a receiver lacking one mandatory id (the packet is dropped repeatedly, the following packet is still delivered, and the whole PDU stays dropped even when an older compatible train is open on the same fragment id). One legal case in four is preceded, on the same encapsulator, by an encap_ext call with the same label that is refused (reserved protocol type / non-matching final mandatory extension): the refused call must not change how the next packet is encoded; one primed case in four is preceded by a broadcast packet sent through encap_ext and delivered to the receiver; one case in four is preceded by an accepted call with the same extension ids but mandatory data of other lengths. Non-trivial = a case that reached the receiver round trip; fingerprint = (chain shape, label, PDU length, buffer, storage)."
     }
     fn gens(&self, cx: &Cx) -> Vec<Gen> {
         vec![
